@@ -18,10 +18,12 @@
 #include <GeographicLib/Math.hpp>
 #include <functional>
 #include <map>
+#include <atomic>
 
 using namespace GeographicLib;
 using namespace std;
 using vt::Rec;
+static thread_local FILE* OUT = stdout;      // each worker thread writes to its own memory stream
 
 // =============================================================== binary128 kit
 typedef __float128 Q;
@@ -92,7 +94,7 @@ static void gl_init() {
     glx[i] = x; glw[i] = 2 / ((1 - x * x) * dp * dp);
   }
 }
-static bool g_qbad = false;     // set when the adaptive rule hit its depth limit (reference unusable)
+static thread_local bool g_qbad = false;     // set when the adaptive rule hit its depth limit (reference unusable)
 typedef std::function<Q(Q)> QF;
 static Q glpanel(const QF& f, Q a, Q b) {
   Q c = (a + b) / 2, h = (b - a) / 2, s = 0;
@@ -103,10 +105,12 @@ static Q integ(const QF& f, Q a, Q b) {
   if (!(b > a)) return 0;
   struct P { Q a, b, v; int d; };
   vector<P> st; Q total = 0; st.push_back({a, b, glpanel(f, a, b), 0});
+  long budget = 6000;      // panels; a non-integrable or NaN integrand exhausts it and marks the reference unusable
   while (!st.empty()) {
     P p = st.back(); st.pop_back();
     Q m = (p.a + p.b) / 2, l = glpanel(f, p.a, m), r = glpanel(f, m, p.b);
-    if (qabs(l + r - p.v) <= (Q)1e-29 * qabs(l + r)) total += l + r;
+    if (qnan(l + r) || qinf(l + r) || --budget < 0) { g_qbad = true; return total; }
+    if (qabs(l + r - p.v) <= (Q)1e-25 * qabs(l + r)) total += l + r;
     else if (p.d >= 1300) { g_qbad = true; total += l + r; }
     else { st.push_back({p.a, m, l, p.d + 1}); st.push_back({m, p.b, r, p.d + 1}); }
   }
@@ -284,7 +288,7 @@ struct AuxCtx {
   AuxCtx(double a, double f) : E(a, f), aux(a, f), ell(a, f) {}
 };
 static AuxCtx& ctx_for(double a, double f) {
-  static map<pair<double, double>, AuxCtx*> cache;
+  static thread_local map<pair<double, double>, AuxCtx*> cache;
   auto key = make_pair(a, f); auto it = cache.find(key);
   if (it != cache.end()) return *it->second;
   AuxCtx* c = new AuxCtx(a, f); cache[key] = c; return *c;
@@ -334,7 +338,7 @@ static void do_cv(const vector<string>& t) {
   // the degree interface on the same input
   double zd = z.degrees(), od = C.aux.Convert(a, b, zd, m != 0);
   r.li("zd", d3(zd)).li("od", d3(od));
-  r.emit();
+  r.emit(OUT);
 }
 // replay: path fi a b c m s mm e
 static void path_obs(AuxCtx& C, int a, int b, int c, int m, const AuxAngle& z, Rec& r) {
@@ -356,7 +360,7 @@ static void do_path(const vector<string>& t) {
   AuxCtx& C = ctx_for(LATELL[fi].a, latf(fi));
   Rec r; r.str("e", "path").i("fi", fi).li("z", {s, mm, e});
   path_obs(C, a, b, c, m, mkang(s, mm, e, 0), r);
-  r.emit();
+  r.emit(OUT);
 }
 
 // ---------------------------------------------------------------- seeded random samplers
@@ -379,10 +383,10 @@ static double rnd_a(vt::Rng& g) { static const double A[] = {1, 6378137, 4194304
 static AuxAngle rnd_ang(vt::Rng& g) {
   int w = int(g.range(0, 15)); double t;
   if (w < 7) t = tan(g.uni(0, 1.5707963267948966));
-  else if (w < 10) t = ldexp(g.uni(1, 2), int(g.range(-1074, 1000)));
+  else if (w < 10) t = ldexp(g.uni(1, 2), int(g.range(-1050, 1000)));
   else if (w == 10) t = ldexp(g.uni(1, 2), int(g.range(-60, 60)));
   else if (w == 11) t = 1 + g.uni(-1e-6, 1e-6);
-  else if (w == 12) t = ldexp(1.0, int(g.range(-1074, -1000)));      // denormal tangents
+  else if (w == 12) t = ldexp(g.uni(1, 2), int(g.range(-1050, -1000)));      // denormal tangents (the last 24 binades: 'den' records)
   else if (w == 13) t = ldexp(g.uni(1, 2), int(g.range(900, 1000)));
   else t = tan(g.uni(1.5, 1.5707963267948966));
   if (g.coin()) t = -t;
@@ -397,7 +401,7 @@ static void rec_cv(vt::Rng& g, long long it) {
   AuxAngle z = rnd_ang(g), o = C.aux.Convert(a, b, z, m != 0);
   Rec r; r.str("e", "cv").i("fi", -1);
   conv_obs(C, a, b, m, z, o, r, (it % 8) == 0 && (a == MU || b == MU || a == XI || b == XI));
-  r.emit();
+  r.emit(OUT);
 }
 static void rec_rtp(vt::Rng& g) {      // conversion and its inverse
   bool ser = g.coin(); double f = rnd_f(g, ser); AuxCtx& C = ctx_for(rnd_a(g), f);
@@ -409,7 +413,7 @@ static void rec_rtp(vt::Rng& g) {      // conversion and its inverse
   long long kap = -1;
   if (cls_of(z) == 1) { Q tau = tauFrom(C.E, a, tz); kap = vt::q1((long double) kappa(C.E, b, a, tau), 1e-3L); }
   r.i("rt", relT(tw, tz)).i("ra", qU(qabs(dang(qabs((Q)w.y()), qabs((Q)w.x()), tz)))).i("kap", kap);
-  r.emit();
+  r.emit(OUT);
 }
 static void rec_se(vt::Rng& g) {       // series against exact
   double f = rnd_f(g, true); AuxCtx& C = ctx_for(rnd_a(g), f);
@@ -419,7 +423,7 @@ static void rec_se(vt::Rng& g) {       // series against exact
     .i("ss", sgn_of(s)).i("xs", sgn_of(x)).i("lt", ilog2(z.tan()));
   Q tx = qabs(qtan(x));
   r.i("ra", qU(qabs(dang(qabs((Q)s.y()), qabs((Q)s.x()), tx)))).i("rt", relT(qabs(qtan(s)), tx));
-  r.emit();
+  r.emit(OUT);
 }
 static void rec_odd(vt::Rng& g) {
   bool ser = g.coin(); double f = rnd_f(g, ser); AuxCtx& C = ctx_for(rnd_a(g), f);
@@ -430,7 +434,7 @@ static void rec_odd(vt::Rng& g) {
     .i("os", sgn_of(o)).i("ons", sgn_of(on)).i("oc", cls_of(o)).i("onc", cls_of(on)).i("rt", relT(-qtan(on), qtan(o)))
     .b("beq", vt::bits(on.y()) == vt::bits(-o.y()) && vt::bits(on.x()) == vt::bits(o.x()))
     .i("rd", absU((Q)odn, -(Q)od, 1)).b("deq", vt::bits(odn) == vt::bits(-od));
-  r.emit();
+  r.emit(OUT);
 }
 static void rec_mono(vt::Rng& g) {
   bool ser = g.coin(); double f = rnd_f(g, ser); AuxCtx& C = ctx_for(rnd_a(g), f);
@@ -449,14 +453,14 @@ static void rec_mono(vt::Rng& g) {
   Rec r; r.str("e", "mono").i("F", Fq(f)).i("a", a).i("b", b).i("m", m).i("cz", t2 > t1 ? 1 : t2 < t1 ? -1 : 0).i("ce", ce)
     .i("ac", cls_of(oa)).i("bc", cls_of(ob)).i("gz", relT((Q)t2, (Q)t1)).i("ge", relT(tb, ta))
     .i("ga", qU(qabs(atan2q((Q)ob.y() * (Q)oa.x() - (Q)ob.x() * (Q)oa.y(), (Q)ob.x() * (Q)oa.x() + (Q)ob.y() * (Q)oa.y()))));
-  r.emit();
+  r.emit(OUT);
 }
 static void rec_path(vt::Rng& g) {
   bool ser = g.coin(); double f = rnd_f(g, ser); AuxCtx& C = ctx_for(rnd_a(g), f);
   int a = int(g.range(0, 5)), b = int(g.range(0, 5)), c = int(g.range(0, 5));
   Rec r; r.str("e", "path").i("fi", -1);
   path_obs(C, a, b, c, ser ? 0 : 1, rnd_ang(g), r);
-  r.emit();
+  r.emit(OUT);
 }
 // ToAuxiliary / FromAuxiliary with the derivative, rectifying radius, authalic radius
 static void rec_taux(vt::Rng& g) {
@@ -475,7 +479,7 @@ static void rec_taux(vt::Rng& g) {
   int niter = -7; AuxAngle z(o.y(), o.x()); AuxAngle back = C.aux.FromAuxiliary(b, z, &niter);
   Q tb = qabs(qtan(back)), tauz = tauFrom(C.E, b, qabs(qtan(z)));
   r.i("rf", relT(tb, tauz)).i("bc", cls_of(back)).i("bs", sgn_of(back)).i("nit", niter);
-  r.emit();
+  r.emit(OUT);
 }
 static void rec_rad(vt::Rng& g) {
   double f = rnd_f(g, g.coin()); double a = rnd_a(g); AuxCtx& C = ctx_for(a, f);
@@ -491,7 +495,7 @@ static void rec_rad(vt::Rng& g) {
     .i("rx", relU((Q)C.aux.RectifyingRadius(true), R)).i("rs", relU((Q)C.aux.RectifyingRadius(false), R))
     .i("cx", relU((Q)C.aux.AuthalicRadiusSquared(true), c2)).i("cs", relU((Q)C.aux.AuthalicRadiusSquared(false), c2))
     .i("rqx", bad ? -1 : relU((Q)C.aux.RectifyingRadius(true), Rq)).i("cqx", bad ? -1 : relU((Q)C.aux.AuthalicRadiusSquared(true), sq((Q)a) * Aq));
-  r.emit();
+  r.emit(OUT);
 }
 // divided differences (DAuxLatitude): definition (eta2 - eta1) / (zeta2 - zeta1), angles in radians
 static void rec_dd(vt::Rng& g) {
@@ -513,7 +517,7 @@ static void rec_dd(vt::Rng& g) {
   } else ref = (eta(t2) - eta(t1)) / (atanq((Q)t2) - atanq((Q)t1));
   Rec r; r.str("e", "dd").i("F", Fq(f)).i("k", kind).i("a", a).i("b", b).i("same", t1 == t2)
     .i("rr", relU((Q)v, ref)).i("rabs", absU((Q)v, ref, 1)).i("sep", qU(qabs(atanq((Q)t2) - atanq((Q)t1)) * (Q)1e-6));
-  r.emit();
+  r.emit(OUT);
 }
 
 // =============================================================== Ellipsoid observations
@@ -524,7 +528,7 @@ struct XCtx {     // the other classes that compute the same quantities
   }
 };
 static XCtx& xctx_for(double a, double f) {
-  static map<pair<double, double>, XCtx*> cache;
+  static thread_local map<pair<double, double>, XCtx*> cache;
   auto key = make_pair(a, f); auto it = cache.find(key);
   if (it != cache.end()) return *it->second;
   XCtx* c = new XCtx(a, f); cache[key] = c; return *c;
@@ -570,7 +574,7 @@ static void rec_elq(vt::Rng& g) {
    .i("xt", guardedU([&] { return ytm(X.tm); })).i("xte", X.tme ? guardedU([&] { return ytm(*X.tme); }) : -1)
    .i("ag", relU((Q)X.g.EllipsoidArea(), (Q)Ad)).i("age", relU((Q)X.ge.EllipsoidArea(), (Q)Ad))
    .i("ar", relU((Q)X.r.EllipsoidArea(), (Q)Ad)).i("are", relU((Q)X.re.EllipsoidArea(), (Q)Ad));
-  r.emit();
+  r.emit(OUT);
 }
 static double rnd_lat(vt::Rng& g) {
   int w = int(g.range(0, 11));
@@ -613,7 +617,7 @@ static void rec_elm(vt::Rng& g) {
    .i("xt", guardedU([&] { return ytm(X.tm); })).i("xte", X.tme ? guardedU([&] { return ytm(*X.tme); }) : -1);
   { double x, y, z; X.gc.Forward(phi, 0.0, 0.0, x, y, z);
     r.i("xcR", absU((Q)x, (Q)Rd, A)).i("xcZ", absU((Q)z, (Q)Zd, A)); }
-  r.emit();
+  r.emit(OUT);
 }
 // latitude wrappers of Ellipsoid (degree interface) and the isometric latitude
 static void rec_ell(vt::Rng& g) {
@@ -644,7 +648,7 @@ static void rec_ell(vt::Rng& g) {
   double ps2 = g.uni(-2000, 2000) * (g.coin() ? 1 : 0.01), ip = E.InverseIsometricLatitude(ps2);
   Q tpi = tauFrom(C.E, CHI, sinhq(qabs((Q)ps2) * QPI / 180));
   r.i("rip", absU((Q)ip * QPI / 180, (ps2 < 0 ? -1 : 1) * qang(tpi), 1));
-  r.emit();
+  r.emit(OUT);
 }
 // flattening / eccentricity interconversions (static members)
 static void rec_elf(vt::Rng& g) {
@@ -666,7 +670,7 @@ static void rec_elf(vt::Rng& g) {
   dv.push_back(u > -1 ? relU((Q)Ellipsoid::SecondEccentricitySqToFlattening(u), 1 - 1 / sqrtq(1 + (Q)u)) : -1);
   dv.push_back(fabs(u) < 1 ? relU((Q)Ellipsoid::ThirdEccentricitySqToFlattening(u), 1 - sqrtq((1 - (Q)u) / (1 + (Q)u))) : -1);
   r.li("def", dv);
-  r.emit();
+  r.emit(OUT);
 }
 
 // =============================================================== EllipticFunction observations
@@ -722,7 +726,7 @@ static void obs_ec(const EP& p, Rec& r) {
     res.push_back(x);
   }
   // K - E = k2 D
-  long long ke = -1; if (leg_finite(p, LF)) { g_qbad = false; Q q = R.complete(LF) - R.complete(LE); ke = g_qbad ? -1 : absU((Q)v[6], q, qmax(qabs(R.complete(LF)), 1)); }
+  long long ke = -1; if (leg_finite(p, LF)) { g_qbad = false; Q q = R.complete(LF) - R.complete(LE); ke = g_qbad ? -1 : absU((Q)v[6], q, qabs(R.complete(LF)) + qabs(R.complete(LE))); }
   res.push_back(ke); inf.push_back(std::isinf(v[6]) ? 1 : std::isnan(v[6]) ? 2 : 0);
   ep_fields(r, p); r.li("r", res).li("inf", inf);
   // Legendre's relation for 0 < k2 < 1:  E K' + E' K - K K' = pi/2
@@ -813,11 +817,11 @@ static void obs_ej(const EP& p, double x, Rec& r) {
     back(LF, phi, (Q)x, ru, rp);
     r.i("amu", ru).i("amp", rp).b("ameq", vt::bits(phi) == vt::bits(phi1));
     Q s = sinq((Q)phi), c = cosq((Q)phi);
-    r.li("amj", {absU((Q)sn, s, 1), absU((Q)cn, c, 1), absU((Q)dn, 1 / legf(p, LF, s, c), 1)});
+    r.li("amj", {absU((Q)sn, s, 1), absU((Q)cn, c, 1), relU((Q)dn, 1 / legf(p, LF, s, c))});
     if (p.k2 >= 0) {
       double s2, c2, d2; e.sncndn(x, s2, c2, d2);
       Q scale = qmax(1, qabs((Q)x));
-      r.li("snj", {absU((Q)s2, s, scale), absU((Q)c2, c, scale), absU((Q)d2, 1 / legf(p, LF, s, c), scale),
+      r.li("snj", {absU((Q)s2, s, scale), absU((Q)c2, c, scale), absU((Q)d2, 1 / legf(p, LF, s, c), scale / legf(p, LF, s, c)),
                    absU(sq((Q)s2) + sq((Q)c2), 1, 1), absU(sq((Q)d2) + (Q)p.k2 * sq((Q)s2), 1, 1)});
     } else r.li("snj", {-1, -1, -1, -1, -1});
   } else {
@@ -880,4 +884,126 @@ static void obs_rc(int fn, const double* a, Rec& r) {
       st = {rel2(EF::RD(y, x, z), v), rel2(EF::RJ(x, y, z, z), v), relU((Q)EF::RD(4 * x, 4 * y, 4 * z), (Q)v / 8)}; break;
   }
   r.li("v", d3(v)).i("rq", relU((Q)v, q)).li("st", st);
+}
+
+// denormal edge: tangents in the last binades above zero (and the corresponding cotangents are not representable)
+static void rec_den(vt::Rng& g) {
+  bool ser = g.range(0, 3) == 0; double f = rnd_f(g, ser); AuxCtx& C = ctx_for(rnd_a(g), f);
+  int a, b; rnd_pair(g, a, b); int m = ser ? 0 : 1;
+  int e = int(g.range(-1074, -1045)); double t = ldexp(g.coin() ? 1.0 : g.uni(1, 2), e); if (t == 0) t = ldexp(1.0, -1074);
+  if (g.coin()) t = -t;
+  AuxAngle z(t, 1.0), o = C.aux.Convert(a, b, z, m != 0);
+  Rec r; r.str("e", "den").i("fi", -1);
+  conv_obs(C, a, b, m, z, o, r, false);
+  r.emit(OUT);
+}
+
+// ---------------------------------------------------------------- elliptic samplers
+static double rnd_dy(vt::Rng& g, int lo, int hi) { return ldexp(double(g.range(1, (1 << 20) - 1)), int(g.range(lo, hi)) - 20); }
+static void rnd_par(vt::Rng& g, double& c, double& cp) {     // (k2, kp2) or (alpha2, alphap2), exactly complementary
+  int w = int(g.range(0, 9));
+  cp = w == 0 ? 0 : w == 1 ? 1 : w < 4 ? ldexp(1.0, -int(g.range(1, 53))) : w < 7 ? rnd_dy(g, -8, 0) : w < 9 ? 1 + rnd_dy(g, -3, 5)
+     : 1 + ldexp(1.0, int(g.range(5, 14)));
+  c = 1 - cp;
+}
+static double rnd_arg(vt::Rng& g) {
+  int w = int(g.range(0, 9));
+  if (w < 4) return g.uni(-1.5707963, 1.5707963); if (w < 6) return g.uni(-7, 7); if (w < 8) return g.uni(-100, 100);
+  if (w == 8) return ldexp(g.uni(1, 2), -int(g.range(1, 60))) * (g.coin() ? 1 : -1);
+  return (g.coin() ? 1 : -1) * (1.5707963267948966 - ldexp(g.uni(1, 2), -int(g.range(3, 40))));
+}
+static void rec_ell3(vt::Rng& g, int kind) {
+  EP p; rnd_par(g, p.k2, p.kp2); rnd_par(g, p.a2, p.ap2); double x = rnd_arg(g);
+  Rec r;
+  if (kind == 0) { r.str("e", "ec"); obs_ec(p, r); } else if (kind == 1) { r.str("e", "ei"); obs_ei(p, x, r); } else { r.str("e", "ej"); obs_ej(p, x, r); }
+  r.emit(OUT);
+}
+static void rec_rc(vt::Rng& g) {
+  int fn = int(g.range(0, 6)); double a[4];
+  int span = g.coin() ? 3 : g.coin() ? 30 : 300, base = int(g.range(-300, 300)); if (base + span > 300) base = 300 - span; if (base - span < -300) base = span - 300;
+  for (int j = 0; j < 4; ++j) a[j] = ldexp(g.uni(1, 2), base + int(g.range(-span, span)));
+  if ((fn == 0 || fn == 3) && g.range(0, 4) == 0) a[2] = 0;
+  if ((fn == 5 || fn == 6 || fn == 2) && g.range(0, 4) == 0) a[0] = 0;
+  if (fn == 0 && g.range(0, 5) == 0) a[2] = a[1];
+  if (fn == 5 && g.range(0, 5) == 0) a[3] = a[2];
+  Rec r; r.str("e", "rc").i("lat", 0); obs_rc(fn, a, r); r.emit(OUT);
+}
+
+// =============================================================== main: replay of TLC vectors / seeded records
+static double dy(const vector<string>& t, size_t i) { return ldexp(double(atoll(t[i].c_str())), atoi(t[i + 1].c_str())); }
+static void do_ell(const vector<string>& t) {      // ec|ei|ej kp2m kp2e ap2m ap2e [xm xe]; k2 = 1 - kp2, alpha2 = 1 - alphap2
+  EP p; p.kp2 = dy(t, 1); p.k2 = 1 - p.kp2; p.ap2 = dy(t, 3); p.a2 = 1 - p.ap2;
+  Rec r; r.str("e", t[0]);
+  vector<long long> par; for (int i = 1; i <= 4; ++i) par.push_back(atoll(t[i].c_str()));
+  r.li("par", par);
+  if (t[0] == "ec") obs_ec(p, r);
+  else { r.li("arg", {atoll(t[5].c_str()), atoll(t[6].c_str())}); double x = dy(t, 5); if (t[0] == "ei") obs_ei(p, x, r); else obs_ej(p, x, r); }
+  r.emit(OUT);
+}
+static void do_rc(const vector<string>& t) {
+  int fn = atoi(t[1].c_str()); double a[4] = {dy(t, 2), dy(t, 4), dy(t, 6), dy(t, 8)};
+  vector<long long> par; for (int i = 2; i <= 9; ++i) par.push_back(atoll(t[i].c_str()));
+  Rec r; r.str("e", "rc").i("lat", 1).li("par", par); obs_rc(fn, a, r); r.emit(OUT);
+}
+static void one_record(vt::Rng& g, long long it) {
+  static const int W[] = {200, 120, 120, 60, 100, 80, 60, 10, 50, 20, 10, 50, 40, 20, 10, 15, 15, 20};   // per mille
+  int u = int(g.range(0, 999)), k = 0; while (u >= W[k]) { u -= W[k]; ++k; }
+  switch (k) {
+    case 0: rec_cv(g, it); break; case 1: rec_rtp(g); break; case 2: rec_se(g); break; case 3: rec_odd(g); break;
+    case 4: rec_mono(g); break; case 5: rec_path(g); break; case 6: rec_taux(g); break; case 7: rec_rad(g); break;
+    case 8: rec_dd(g); break; case 9: rec_den(g); break; case 10: rec_elq(g); break; case 11: rec_elm(g); break;
+    case 12: rec_ell(g); break; case 13: rec_elf(g); break; case 14: rec_ell3(g, 0); break; case 15: rec_ell3(g, 1); break;
+    case 16: rec_ell3(g, 2); break; default: rec_rc(g); break;
+  }
+}
+#include <thread>
+int main(int argc, char** argv) {
+  vt::install_terminate();
+  QPI = 4 * atanq(1); QH = QPI / 2; gl_init();
+  if (argc >= 2 && string(argv[1]) == "replay") {
+    int T = argc >= 3 ? atoi(argv[2]) : 16; if (T < 1) T = 1;
+    vector<string> lines; string line;
+    while (getline(cin, line)) if (!line.empty()) lines.push_back(line);
+    const size_t CHN = 256; size_t nl = lines.size();
+    vector<char*> buf(CHN, nullptr); vector<size_t> len(CHN, 0);
+    std::atomic<size_t> next(0);
+    auto work = [&]() {
+      for (;;) {
+        size_t c = next.fetch_add(1); if (c >= CHN) break;
+        FILE* f = open_memstream(&buf[c], &len[c]); OUT = f;
+        for (size_t i = nl * c / CHN; i < nl * (c + 1) / CHN; ++i) {
+          auto t = vt::split(lines[i]); if (t.empty()) continue;
+          if (t[0] == "cv") do_cv(t); else if (t[0] == "path") do_path(t);
+          else if (t[0] == "ec" || t[0] == "ei" || t[0] == "ej") do_ell(t); else if (t[0] == "rc") do_rc(t);
+        }
+        fclose(f); OUT = stdout;
+      }
+    };
+    vector<std::thread> th; for (int i = 0; i < T; ++i) th.emplace_back(work);
+    for (auto& x : th) x.join();
+    for (size_t c = 0; c < CHN; ++c) { if (len[c]) fwrite(buf[c], 1, len[c], stdout); free(buf[c]); }
+    return 0;
+  }
+  if (argc >= 4 && string(argv[1]) == "record") {
+    uint64_t seed = strtoull(argv[2], 0, 10); long long n = atoll(argv[3]);
+    int T = argc >= 5 ? atoi(argv[4]) : 16; if (T < 1) T = 1;
+    const int CH = 64;                       // fixed number of chunks: the trace does not depend on the thread count
+    vector<char*> buf(CH, nullptr); vector<size_t> len(CH, 0);
+    std::atomic<int> next(0);
+    auto work = [&]() {
+      for (;;) {
+        int c = next.fetch_add(1); if (c >= CH) break;
+        FILE* f = open_memstream(&buf[c], &len[c]); OUT = f;
+        vt::Rng g(seed * 1000003ULL + uint64_t(c));
+        long long lo = n * c / CH, hi = n * (c + 1) / CH;
+        for (long long it = lo; it < hi; ++it) one_record(g, it);
+        fclose(f); OUT = stdout;
+      }
+    };
+    vector<std::thread> th; for (int i = 0; i < T; ++i) th.emplace_back(work);
+    for (auto& x : th) x.join();
+    for (int c = 0; c < CH; ++c) { if (len[c]) fwrite(buf[c], 1, len[c], stdout); free(buf[c]); }
+    return 0;
+  }
+  fprintf(stderr, "usage: drv_auxell replay < vectors | record seed n [threads]\n"); return 2;
 }
